@@ -5,6 +5,8 @@ import (
 	"go/types"
 	"sort"
 	"strings"
+
+	"golang.org/x/tools/go/ssa"
 )
 
 // VSeq is a specification-level byte/int sequence: element i is Data[Off+i], 0 <= i < Len.
@@ -34,6 +36,7 @@ type SpecEnv struct {
 	uses    map[string]bool // spec functions used
 	fuel    int
 	fuelSet bool
+	callSite bool // evaluating a callee's contract at a call site
 }
 
 func (env *SpecEnv) clone() *SpecEnv {
@@ -181,6 +184,19 @@ func (env *SpecEnv) eval(x Expr) specVal {
 		if c, ok := env.constant(n.Name); ok {
 			return c
 		}
+		// a local variable of the function that has no value on this path: arbitrary
+		if env.fr != nil {
+			for _, b := range env.fr.fn.Blocks {
+				for _, in := range b.Instrs {
+					if dr, ok := in.(*ssa.DebugRef); ok && dr.Object() != nil && dr.Object().Name() == n.Name {
+						if v, isVar := dr.Object().(*types.Var); isVar {
+							val := env.e.freshValue(env.st, v.Type(), "undef!"+n.Name)
+							return specVal{val, v.Type()}
+						}
+					}
+				}
+			}
+		}
 		sfail("unknown identifier %q", n.Name)
 	case EUn:
 		switch n.Op {
@@ -204,9 +220,21 @@ func (env *SpecEnv) eval(x Expr) specVal {
 		sub := env.clone()
 		var decls []string
 		for _, v := range n.Vars {
+			ty := "int"
+			if i := strings.Index(v, ":"); i >= 0 {
+				v, ty = v[:i], v[i+1:]
+			}
 			name := quoteSym("q!" + v)
-			sub.vars[v] = specVal{Term{name, SInt}, mathInt}
-			decls = append(decls, "("+name+" Int)")
+			switch ty {
+			case "int":
+				sub.vars[v] = specVal{Term{name, SInt}, mathInt}
+				decls = append(decls, "("+name+" Int)")
+			case "string":
+				sub.vars[v] = specVal{VStr{Term{name, SStr}}, types.Typ[types.String]}
+				decls = append(decls, "("+name+" Str)")
+			default:
+				sfail("quantified variable %s: unsupported type %s", v, ty)
+			}
 		}
 		body := sub.Bool(n.Body)
 		q := "forall"
@@ -216,7 +244,23 @@ func (env *SpecEnv) eval(x Expr) specVal {
 		if body.S == "true" || body.S == "false" {
 			return specVal{body, types.Typ[types.Bool]}
 		}
-		return specVal{Term{fmt.Sprintf("(%s (%s) %s)", q, strings.Join(decls, " "), body.S), SBool}, types.Typ[types.Bool]}
+		// re-base integer index variables: forall i. P(obj[off+i]) becomes forall k. P'(obj[k]) so
+		// that the solver's triggers (select obj k) match every read of the object
+		bs := body.S
+		for di, v := range n.Vars {
+			if strings.Contains(v, ":") && !strings.HasSuffix(v, ":int") {
+				continue
+			}
+			if i := strings.Index(v, ":"); i >= 0 {
+				v = v[:i]
+			}
+			name := quoteSym("q!" + v)
+			if nb, nn, ok := rebaseIndexVar(bs, name); ok {
+				bs = nb
+				decls[di] = "(" + nn + " Int)"
+			}
+		}
+		return specVal{Term{fmt.Sprintf("(%s (%s) %s)", q, strings.Join(decls, " "), bs), SBool}, types.Typ[types.Bool]}
 	case EBin:
 		return env.evalBin(n)
 	case ESel:
@@ -589,6 +633,14 @@ func (env *SpecEnv) evalCall(n ECall) specVal {
 		sfail("cap of %T", x.v)
 	case "seq":
 		return specVal{env.toSeq(env.eval(n.Args[0])), nil}
+	case "string":
+		// string(b): the string with the bytes of b (same function symbol as the code's conversion)
+		x := env.eval(n.Args[0])
+		if s, ok := x.v.(VStr); ok {
+			return specVal{s, types.Typ[types.String]}
+		}
+		sq := env.toSeq(x)
+		return specVal{env.e.strOf(sq.Data, sq.Off, sq.Len), types.Typ[types.String]}
 	case "lens":
 		// lens(v): the sequence of the lengths of the elements of a slice of slices
 		x := env.eval(n.Args[0])
@@ -672,6 +724,24 @@ func (env *SpecEnv) evalCall(n ECall) specVal {
 		v0 := Select(env.curHeapGet(vals[0].name, vals[0].sort), m.v.(Term))
 		q := fmt.Sprintf("(forall ((qk %s)) (! (=> (select %s qk) (not (= (select %s qk) 0))) :pattern ((select %s qk))))", ks, d.S, v0.S, v0.S)
 		return specVal{Term{q, SBool}, boolT}
+	case "seen":
+		// seen(k): key k has already been produced by the map iteration of the enclosing loop
+		cur, ok := env.st.ghost["iter!current"]
+		if !ok {
+			sfail("seen() outside a map iteration")
+		}
+		set := env.st.ghost[cur.S]
+		k := env.eval(n.Args[0])
+		var kt Term
+		switch kv := k.v.(type) {
+		case VStr:
+			kt = kv.T
+		case Term:
+			kt = kv
+		default:
+			sfail("seen(): unsupported key %T", k.v)
+		}
+		return specVal{Select(set, kt), boolT}
 	case "mapvals_inv":
 		// every value stored in the map (of pointer type) is non-nil and satisfies its type invariant
 		m := env.eval(n.Args[0])
@@ -717,8 +787,18 @@ func (env *SpecEnv) evalCall(n ECall) specVal {
 	case "ghost":
 		// ghost(name) : Int-sorted ghost variable of the path
 		id := n.Args[0].(EIdent).Name
+		if t, ok := env.st.ghost["g!"+id]; ok {
+			if t.Sort == SBool {
+				return specVal{t, boolT}
+			}
+			return specVal{t, mathInt}
+		}
 		if t, ok := env.st.ghost[id]; ok {
 			return specVal{t, mathInt}
+		}
+		if env.callSite {
+			// a callee's ghost variable is not visible to its callers: nothing is known about it
+			return specVal{env.e.sym.Fresh("ghost!"+id, SBool), boolT}
 		}
 		sfail("unknown ghost %s", id)
 	case "iserr":
